@@ -53,6 +53,34 @@ def main():
             print("confirm:", meta.get("confirm"), meta.get("confirmed"))
         finally:
             sh(f"git -C /repo worktree remove --force {wt}")
+    if "--wt" in sys.argv:
+        # evaluation in a scratch worktree (several seeds in parallel, /repo stays clean); the table of DESIGN.md is
+        # made from runs against /repo itself
+        use = os.path.join(d, "patch.current.diff") if os.path.exists(os.path.join(d, "patch.current.diff")) else patch
+        wt = tempfile.mkdtemp(prefix="sw_", dir="/tmp")
+        os.rmdir(wt)
+        assert sh(f"git -C /repo worktree add -q --detach {wt} HEAD").returncode == 0
+        results = {}
+        try:
+            assert sh(f"git -C {wt} apply {use}").returncode == 0
+            env = dict(os.environ, PYTHONPATH=wt, PYVC_REPO=wt)
+            for p in props:
+                r = sh(f"cd {ROOT} && ./vcheck {p} --no-evidence --replay-dir {wt}/replays 2>&1 | cut -c1-400", env=env)
+                allout = r.stdout.strip().splitlines()
+                lines = [l for l in allout if l.startswith(("VIOLATION", "HELD"))] + \
+                        [l for l in allout if not l.startswith(("VIOLATION", "HELD"))]
+                verdict = "VIOLATION" if any(l.startswith("VIOLATION") for l in lines) else (
+                    "HELD" if any(l.startswith("HELD") for l in lines) else "OTHER")
+                results[p] = {"verdict": verdict, "lines": lines[:6]}
+                print(sid, p, verdict)
+                for l in lines[:4]:
+                    print("   ", l[:300])
+        finally:
+            sh(f"git -C /repo worktree remove --force {wt}")
+        meta["checks"] = results
+        meta["detected"] = any(v["verdict"] == "VIOLATION" for v in results.values())
+        json.dump(meta, open(os.path.join(d, "meta.json"), "w"), indent=1)
+        return
     # run the checks on /repo with the patch applied
     st = sh("git -C /repo status --porcelain -- odxtools")
     assert st.stdout.strip() == "", "/repo has uncommitted changes"
